@@ -191,6 +191,10 @@ fn main() {
                 let mut out = out.lock();
                 for i in from..to {
                     let s = gen_scenario::<F>(seed, tier, i);
+                    if F::long_running(&s) {
+                        let _ = writeln!(out, "L {}", i);
+                        let _ = out.flush();
+                    }
                     let ctx = exec_guarded::<F>(&s, false);
                     let o = ctx.violation.as_ref().map(|v| v.oracle.clone()).unwrap_or_else(|| "-".to_string());
                     let _ = writeln!(out, "D {} {:016x} {} {}", i, ctx.digest, o, ctx.ops);
